@@ -3,8 +3,9 @@ From Coq Require Import NArith ZArith List Bool.
 Import ListNotations.
 Open Scope N_scope.
 
-(* ClientRequest._create_writer: `if self.chunked: writer.enable_chunking()`; c = self.chunked (None / Some bool) *)
-Definition writer_chunking_enabled (c : option bool) : bool := match c with Some true => true | _ => false end.
+(* ClientRequest._create_writer: `if self.chunked and hdrs.TRANSFER_ENCODING in self.headers: writer.enable_chunking()`; c = self.chunked (None / Some bool),
+   te = a Transfer-Encoding header is in self.headers *)
+Definition writer_chunking_enabled (c : option bool) (te : bool) : bool := match c with Some true => te | _ => false end.
 
 (* ClientRequest.GET_METHODS / ClientRequestBase.POST_METHODS *)
 Definition client_get_methods : list (list N) := [[71; 69; 84]; [72; 69; 65; 68]; [79; 80; 84; 73; 79; 78; 83]; [84; 82; 65; 67; 69]].
@@ -29,6 +30,10 @@ Definition server_sends_100 (expect v11 : bool) : bool := expect && v11.
 
 (* feed_data: empty_body = code in EMPTY_BODY_STATUS_CODES or bool(code and method and method in EMPTY_BODY_METHODS) *)
 Definition response_empty_body_rule_is_status_or_head : bool := true.
+
+(* ClientRequestBase._send: `writer.length = content_length` before the body is written, and _write_bytes raises
+   ClientPayloadError (no write_eof) when the body source ended short of the declared Content-Length *)
+Definition client_counts_declared_length : bool := true.
 
 (* ClientRequest._write_bytes: writer.write_eof() runs only in the `else:` of the try around the body write,
    i.e. not after a handled OSError / Exception of the body source *)
